@@ -53,11 +53,23 @@ theorems of that section prove that the PBF decoder model IS that filter, for AL
 number of PrimitiveGroups per PrimitiveBlock, any order of group types, dense and plain node groups
 mixed (`pbf_block_mask_is_filter`, `pbf_file_mask_is_filter`, `pbf_reader_spec_is_masked_decode`), and
 say precisely what the code does with a group it skips (`pbf_skipped_group_not_validated`).
+
+Section "any number of buffers without data inside one read() call" (Lemmas/PipelineSkip.lean; seed
+C05-6): read() skips valid buffers without data — one per PBF block without selected objects — in a
+loop.  `read_skips_empty_buffer`, `read_skips_any_number_of_empty_buffers`,
+`read_returns_first_buffer_with_data`, `read_after_empty_buffers_sees_end_of_data`: for EVERY number
+k of such buffers and every interleaving, the call is still the same single call at a control point
+of `pop()`, the consumer's part of the state is exactly what it was, and the call returns the first
+buffer with data (or the end marker).  The model's consumer is a flat record with a program counter:
+there is NO machine stack in it, so "the stack of the reading thread does not grow with k" is not a
+statement of the model — it is checked on the real code by the small-stack monitor of
+tools/props/c05.py (`scale_pass`: 64-256 KiB painted stacks, runs of 2 000 - 200 000 empty buffers).
 -/
 import Osmium.Lemmas.PipelineOrder
 import Osmium.Lemmas.PipelineComplete
 import Osmium.Lemmas.PipelineDirect4
 import Osmium.Lemmas.PipelineFaultE
+import Osmium.Lemmas.PipelineSkip
 import Osmium.Lemmas.PbfMask
 import Osmium.Model.PbfMixed
 
@@ -466,6 +478,82 @@ example : Restricts { nodes := false, ways := true, relations := false, readMeta
 
 end PbfMask
 
+/-! ## any number of buffers without data inside one read() call (seed C05-6)
+
+`Reader::read()` (reader.hpp) pops futures from the osmdata queue in a `while (true)` loop until one
+holds data or the end marker; the PBF decoder sends one valid buffer WITHOUT data for every block
+that holds none of the selected types, so the loop runs once per such block — tens of thousands of
+times in a row when only ways/relations of a large sorted file are read.  In the model the loop is
+the cycle `readPop → readWaitPop → readGot id → readPop` of the consumer's program counter inside
+one API call.  The theorems below quantify over every trace `tr` — any number k of buffers without
+data (`Skip.emptyGets tr`), any steps of the other threads in between.
+
+HONEST SCOPE: the consumer of the model is a flat record (`cpc`, `status`, `back`, …); it has no call
+stack, so these theorems say that NO STATE accumulates per skipped buffer, not how many bytes of
+machine stack the C++ function uses.  A version of read() that calls itself once per skipped
+buffer has the same transitions (and the same sequences) and differs only in stack depth: that is
+outside the model and is covered by the small-stack monitor of tools/props/c05.py (`scale_pass`:
+the thread calling read() runs on a painted 64-256 KiB stack while the input has thousands of
+consecutive blocks / buffers without data; its high-water mark must not depend on their number). -/
+
+/-- Unpacking one buffer without data, in any reachable state: read() is back at the control point
+    at which the pop started and NOTHING else in the whole pipeline state has changed — the pass
+    through the loop leaves no trace. -/
+theorem read_skips_empty_buffer (c : Cfg α) (s s' : State α) (lv : List (List α)) (h : (P c).Reachable s)
+    (hst : (P c).Step s (.cGet (.buf lv)) s') (he : lv.flatten = []) :
+    s' = { s with cpc := .readPop } :=
+  Skip.cGet_noData c s s' lv h hst he
+
+/-- For ALL k: while one read() call pops buffers without data — any number of them, interleaved
+    with any steps of the read thread, the parser thread and the pool workers — it is still that
+    same call at one of the three control points of `pop()`, and what it has delivered, the back
+    buffers, the results of the API calls so far and the status are exactly what they were when the
+    call entered `pop()`.  (`Skip.skipEv` excludes only the four ways OUT of the loop: a future with
+    data, the end marker, an exception, the queue found shut down.) -/
+theorem read_skips_any_number_of_empty_buffers (c : Cfg α) (s s' : State α) (tr : List (Ev α))
+    (h : (P c).Reachable s) (hp : Skip.inPop s = true) (hrun : (P c).run? s tr = .ok s')
+    (hev : ∀ e ∈ tr, Skip.skipEv e = true) :
+    Skip.inPop s' = true ∧ s'.delivered = s.delivered ∧ s'.back = s.back ∧ s'.results = s.results ∧
+      s'.status = s.status := by
+  obtain ⟨hp', hs⟩ := Skip.skip_run c tr s s' 0 h hp hrun hev
+  exact ⟨hp', hs.delivered, hs.back, hs.results, hs.status⟩
+
+/-- … and the first buffer WITH data ends the loop: the call returns its oldest level `l` (non-empty),
+    the other levels become the back buffers, and the caller has received exactly `l` more than
+    before the k empty buffers. -/
+theorem read_returns_first_buffer_with_data (c : Cfg α) (s s' s'' : State α) (tr : List (Ev α)) (lv : List (List α))
+    (h : (P c).Reachable s) (hp : Skip.inPop s = true) (hrun : (P c).run? s tr = .ok s')
+    (hev : ∀ e ∈ tr, Skip.skipEv e = true) (hst : (P c).Step s' (.cGet (.buf lv)) s'') (hd : lv.flatten ≠ []) :
+    ∃ l rest, lv = l :: rest ∧ l ≠ [] ∧ s''.cpc = .ret (.data l) ∧ s''.delivered = s.delivered ++ l ∧
+      s''.back = rest ∧ s''.results = s.results := by
+  obtain ⟨_, hs⟩ := Skip.skip_run c tr s s' 0 h hp hrun hev
+  have hr' : (P c).Reachable s' := (P c).run?_reachable s s' tr 0 h hrun
+  obtain ⟨rfl, hb, hw⟩ := Fault.cGet_buf_step c s' _ lv hr' hst
+  match lv, hw with
+  | [top], _ =>
+    have ht : top ≠ [] := by simpa using hd
+    refine ⟨top, [], rfl, ht, ?_, ?_, ?_, ?_⟩ <;> simp [afterPop, ht, hs.delivered, hs.results, hb]
+  | l :: l2 :: rest, hw =>
+    simp only [wfLevels, Bool.and_eq_true, Bool.not_eq_true', List.isEmpty_eq_false_iff] at hw
+    have hl : l.isEmpty = false := by simpa using hw.1
+    refine ⟨l, l2 :: rest, rfl, hw.1, ?_, ?_, ?_, ?_⟩ <;> simp [afterPop, hl, hs.delivered, hs.results]
+
+/-- … or the end marker does: read() goes on to shut the queue down and to return the invalid buffer
+    (`eodSd`; the status becomes eof in the `sdLocked` step), having delivered nothing in this call. -/
+theorem read_after_empty_buffers_sees_end_of_data (c : Cfg α) (s s' s'' : State α) (tr : List (Ev α))
+    (h : (P c).Reachable s) (hp : Skip.inPop s = true) (hrun : (P c).run? s tr = .ok s')
+    (hev : ∀ e ∈ tr, Skip.skipEv e = true) (hst : (P c).Step s' (.cGet .eod) s'') :
+    s''.cpc = .eodSd ∧ s''.delivered = s.delivered ∧ s''.back = s.back ∧ s''.results = s.results := by
+  obtain ⟨_, hs⟩ := Skip.skip_run c tr s s' 0 h hp hrun hev
+  simp only [Machine.Step, machine, step?] at hst
+  split at hst
+  · split at hst
+    · simp only [Option.some.injEq] at hst
+      subst hst
+      exact ⟨rfl, hs.delivered, hs.back, hs.results⟩
+    · cases hst
+  · cases hst
+
 /-! ## non-vacuity: a complete read, evaluated by the kernel -/
 
 /-- one-object file, one chunk, unbounded queues, no spurious wake-ups -/
@@ -601,6 +689,52 @@ example : ∃ s, (P lossy).Reachable s ∧
     (s.destroyed && s.faulted && !s.sawEod && decide (s.delivered = [7])
       && decide (s.results = [.data [7], .exc 4, .ioError]) && decide (s.rpc = .done) && decide (s.ppc = .done)) = true :=
   trace_witness lossy lossyRun _ (by decide)
+
+/-! ## non-vacuity: a masked read that skips two blocks inside one read() call, evaluated by the kernel -/
+
+/-- a PBF file with three blobs of one object each, read with a mask that selects only the last
+    object; blobs decoded inline (`usePool := false`): the first two blobs give buffers without data -/
+def masked : Cfg Nat :=
+  { file := [7, 8, 9], sel := fun x => x == 9, strip := id, chunkEnd := [3], pbf := true, blobEnd := [1, 2, 3],
+    usePool := false, workers := [], wqMax := 0, inqC := ⟨0, false⟩, outqC := ⟨0, false⟩, single := false,
+    nothing := false, readFault := none, closeFault := false, parseFault := none, blobFault := none }
+
+/-- read thread, parser thread (three futures: two buffers without data, then [9]), then ONE read()
+    call: events 33 … 38 are its two passes through the skipping loop -/
+def maskedRun : List (Ev Nat) :=
+  [.rTestDone false, .rRead (.chunk 0), .qi (.pushEnter 1 0), .qi (.pushTest 1 true), .qi (.pushLocked 1 1 none), .rSet,
+   .rTestDone false, .rRead .eod, .rCloseDec true, .qi (.pushEnter 1 2), .qi (.pushTest 1 true), .qi (.pushLocked 1 2 none), .rSet,
+   .pInUse true, .qi (.popNow 2 2 (some (1, 0))), .pGet (.chunk 0), .pHeader,
+   .pBlob [[]], .qo (.pushEnter 2 1), .qo (.pushTest 2 true), .qo (.pushLocked 2 1 none), .pSet,
+   .pBlob [[]], .qo (.pushEnter 2 3), .qo (.pushTest 2 true), .qo (.pushLocked 2 2 none), .pSet,
+   .pBlob [[9]], .qo (.pushEnter 2 5), .qo (.pushTest 2 true), .qo (.pushLocked 2 3 none), .pSet,
+   .cRead,
+   .cInUse true, .qo (.popNow 0 3 (some (2, 1))), .cGet (.buf [[]]),
+   .cInUse true, .qo (.popNow 0 2 (some (2, 3))), .cGet (.buf [[]]),
+   .cInUse true, .qo (.popNow 0 1 (some (2, 5))), .cGet (.buf [[9]]), .cRet (.data [9])]
+
+/-- the skipping part of that read() call -/
+def skipSeg : List (Ev Nat) := (maskedRun.drop 33).take 6
+
+example : deliver masked = [9] := by decide
+
+/-- the hypotheses of `read_skips_any_number_of_empty_buffers` are satisfiable with k = 2: the state
+    after `cRead` is reachable and inside `pop()`, the six events are a run from it, all of them
+    stay in the loop, two of them unpack a buffer without data -/
+example : ∃ s s', (P masked).Reachable s ∧ Skip.inPop s = true ∧ (P masked).run? s skipSeg = .ok s' := by
+  obtain ⟨s, hr, hp⟩ := trace_witness masked (maskedRun.take 33)
+    (fun s => Skip.inPop s && (match (P masked).run? s skipSeg with | .ok _ => true | .error _ => false)) (by decide)
+  simp only [Bool.and_eq_true] at hp
+  match hrun : (P masked).run? s skipSeg, hp.2 with
+  | .ok s', _ => exact ⟨s, s', hr, hp.1, hrun⟩
+
+example : (∀ e ∈ skipSeg, Skip.skipEv e = true) ∧ Skip.emptyGets skipSeg = 2 := by decide
+
+/-- … and of `read_returns_first_buffer_with_data`: after the two passes the call unpacks [[9]] and
+    returns it; the whole run delivered exactly `deliver masked` with ONE successful read() -/
+example : ∃ s, (P masked).Reachable s ∧
+    (decide (s.delivered = [9]) && decide (s.results = [.data [9]]) && decide (s.back = []) && decide (s.outq.items = [])) = true :=
+  trace_witness masked maskedRun _ (by decide)
 
 /-! ## the direct-fd configuration (a PBF FILE read by the parser thread through the file descriptor)
 
